@@ -147,7 +147,7 @@ Proof. exact dial_reaches_expected_fixed. Qed.
 Print Assumptions c08_dial_reaches_expected.
 
 Example c08_dial_reaches_expected_nonvacuous :
-  verify (mkfixes true true true) Ed25519 0 0 (Some 2)
+  verify (mkfixes true true true true) Ed25519 0 0 (Some 2)
          [RawOne (mkcert (pub_to_cn 2) [URI true true (pub_to_cn 2)] (Some (SigBy 2 0 (pub_to_cn 2) (Some 5)))
                          5 SgSelf (-300) 7200 true false)] = Accept.
 Proof. exact dial_reaches_expected_fixed_nonvacuous. Qed.
@@ -262,7 +262,7 @@ Print Assumptions c08_pinned_violates_property_nokey.
    unforgeability, every chain, identity message, role, suite, message count *)
 Theorem c08_repaired_link_satisfies_property : forall holds own_tls htls r s h id msgs,
   (forall k, ~ In k holds -> own_tls (htls k) = false) ->
-  let fx := mkfixes true true true in
+  let fx := mkfixes true true true true in
   presentable fx holds own_tls htls h ->
   let o := link fx LTls r s h id msgs in
   link_property LTls r s holds h id (out_hs o) (out_disp o) (out_stamp o) (out_crash o).
@@ -270,7 +270,7 @@ Proof. exact repaired_link_satisfies_property. Qed.
 Print Assumptions c08_repaired_link_satisfies_property.
 
 Example c08_repaired_link_nonvacuous :
-  let fx := mkfixes true true true in
+  let fx := mkfixes true true true true in
   let c := mkcert (pub_to_cn 2) [URI true true (pub_to_cn 2)] (Some (SigBy 2 0 (pub_to_cn 2) (Some 0)))
                   0 SgSelf (-300) 7200 true false in
   presentable fx [2; 3] (fun t => t <? 2) (fun _ => 9) (Hello [RawOne c] 0) /\
@@ -282,7 +282,7 @@ Print Assumptions c08_repaired_link_nonvacuous.
 (* with the small repair alone (F09; the one proposed as a patch) the property
    holds against every peer that does not relay an honest holder's proof *)
 Theorem c08_f09_repaired_satisfies_property_without_relay : forall holds r s h id msgs,
-  let fx := mkfixes true false true in
+  let fx := mkfixes true false true false in
   signs_only_with_own_keys holds h ->
   let o := link fx LTls r s h id msgs in
   link_property LTls r s holds h id (out_hs o) (out_disp o) (out_stamp o) (out_crash o).
